@@ -263,8 +263,12 @@ def oracle_case(case, obs):
     sm = SlidingMap(cap, p, a)
 
     def add(i, msgs):
+        # "<kind>: after step i: <details>" -- the driver shrinks while the kind (text before the
+        # first colon) stays the same, so the step number must not be part of it
         for m in msgs:
-            out.append({"what": f"step {i}: {m}", "finding": None})
+            kind, _, rest = m.partition(": ")
+            kind = kind.split("(")[0].split("[")[0].strip()
+            out.append({"what": f"{kind}: after step {i}: {m}", "finding": None})
 
     for i, (st, o) in enumerate(zip(case["steps"], obs["steps"])):
         if st["op"] == "u":
@@ -297,7 +301,7 @@ def oracle_case(case, obs):
             elif k == "ai":
                 if not sm.m:
                     if g != "IndexError":
-                        add(i, [f"at({q['i']}) on an empty window returned {g}"])
+                        add(i, [f"at: at({q['i']}) on an empty window returned {g}"])
                     continue
                 n = sm.N - sm.oldest() + 1
                 slot = sm.oldest() + q["i"] if q["i"] >= 0 else sm.N + 1 + q["i"]
@@ -305,7 +309,7 @@ def oracle_case(case, obs):
             elif k == "at":
                 if not sm.m:
                     if g != "IndexError":
-                        add(i, [f"at(datetime) on an empty window returned {g}"])
+                        add(i, [f"at: at(datetime) on an empty window returned {g}"])
                     continue
                 inr = sm.ts(sm.oldest()) <= q["t"] <= sm.ts(sm.N)
                 add(i, judge_at(sm, rslot(q["t"], p, a), inr, g, f"at(datetime {Fraction(q['t'] - sm.ts(sm.N), p)} periods rel. newest)"))
